@@ -26,6 +26,7 @@ import (
 	"go.dedis.ch/kyber/v4/pairing/bn256"
 	"go.dedis.ch/kyber/v4/proof"
 	"go.dedis.ch/kyber/v4/util/random"
+	"golang.org/x/crypto/blake2b"
 
 	"kyverif/vh"
 )
@@ -455,12 +456,50 @@ func verify(S *suiteT, root *node, pts map[string]kyber.Point, name string, pf [
 
 // the Fiat-Shamir challenge as specified by hash.go, computed independently
 func challenge(S *suiteT, name string, consumed []byte) kyber.Scalar {
-	x := S.s.XOF([]byte(name))
+	x := newRefXOF([]byte(name))
 	if len(consumed) > 0 {
-		x.Reseed()
-		x.Write(consumed)
+		key := make([]byte, 128)
+		x.x.Read(key)
+		x = newRefXOF(key) // Reseed
+		x.x.Write(consumed)
 	}
 	return S.s.Scalar().Pick(x)
+}
+
+// refXOF: BLAKE2Xb keyed with the first 64 bytes of the seed, the rest absorbed,
+// built on golang.org/x/crypto directly (specification of xof/blake2xb.New).
+type refXOF struct{ x blake2b.XOF }
+
+func newRefXOF(seed []byte) *refXOF {
+	key, rest := seed, []byte(nil)
+	if len(seed) > 64 {
+		key, rest = seed[:64], seed[64:]
+	}
+	x, err := blake2b.NewXOF(blake2b.OutputLengthUnknown, key)
+	if err != nil {
+		panic(err)
+	}
+	x.Write(rest)
+	return &refXOF{x}
+}
+func (x *refXOF) XORKeyStream(dst, src []byte) {
+	k := make([]byte, len(src))
+	x.x.Read(k)
+	for i := range src {
+		dst[i] = src[i] ^ k[i]
+	}
+}
+
+var nameLens = []int{0, 1, 5, 31, 32, 33, 63, 64, 65, 73, 127, 128, 129, 200}
+
+// genName: protocol names with length-boundary-biased lengths (XOF key size 64, Reseed key 128)
+func genName(r *vh.Rng) string {
+	n := nameLens[r.Intn(len(nameLens))]
+	b := make([]byte, n)
+	for i := range b {
+		b[i] = byte(33 + r.Intn(90))
+	}
+	return string(b)
 }
 
 // ---------------------------------------------------------------- Coq printing
@@ -739,15 +778,37 @@ func makeVariants(in *inst, name string, pf []byte, r *vh.Rng, full bool) []vari
 		vs = append(vs, variant{kind: "wrong-shape", name: name, pf: pf, root: root, reject: true,
 			key: "proof.HashVerify/different-predicate-accepted"})
 	}
-	// different protocol name
-	vs = append(vs, variant{kind: "wrong-name", name: name + "x", pf: pf, reject: true,
-		key: "proof.HashVerify/different-protocol-name-accepted"})
-	other := ""
-	if name == "" {
-		other = "proto2"
+	// different protocol name: appended byte, dropped last byte, last byte altered, a byte beyond
+	// index 64 altered (the XOF key is 64 bytes; the rest of the name is absorbed), first / random byte altered
+	addName := func(kind, other string) {
+		if other != name {
+			vs = append(vs, variant{kind: "wrong-name-" + kind, name: other, pf: pf, reject: true,
+				key: "proof.HashVerify/different-protocol-name-accepted"})
+		}
 	}
-	vs = append(vs, variant{kind: "wrong-name", name: other, pf: pf, reject: true,
-		key: "proof.HashVerify/different-protocol-name-accepted"})
+	flipAt := func(i int) string {
+		b := []byte(name)
+		b[i] ^= byte(1 + r.Intn(255))
+		return string(b)
+	}
+	addName("appended", name+string([]byte{byte(33 + r.Intn(90))}))
+	if len(name) > 0 {
+		addName("dropped-last", name[:len(name)-1])
+		addName("last-byte", flipAt(len(name)-1))
+		if r.Bool() {
+			addName("first-byte", flipAt(0))
+		} else {
+			addName("random-byte", flipAt(r.Intn(len(name))))
+		}
+	} else {
+		addName("other", "proto2")
+	}
+	if len(name) > 64 {
+		addName("byte-beyond-64", flipAt(64+r.Intn(len(name)-64)))
+	}
+	if len(name) > 128 {
+		addName("byte-beyond-128", flipAt(128+r.Intn(len(name)-128)))
+	}
 	return vs
 }
 
@@ -766,7 +827,8 @@ func (c *ctx) nextID() int { c.id++; return c.id }
 func runTree(c *ctx, in *inst, r *vh.Rng, full bool, what string) {
 	S := in.S
 	rep := c.rep
-	name := []string{"", "proto", "kyber-test/" + fmt.Sprint(r.Intn(1000))}[r.Intn(3)]
+	name := genName(r)
+	rep.Dist(fmt.Sprintf("len:name=%d", len(name)))
 	seed := r.Bytes(16)
 	secs := in.secrets()
 	pts := ptsOf(in.ptv)
@@ -1345,7 +1407,7 @@ func deniable(c *ctx, S *suiteT, r *vh.Rng, mode string) {
 			mix[j] ^= keys[i][j]
 		}
 	}
-	cval := g.Scalar().Pick(g.XOF(mix))
+	cval := g.Scalar().Pick(newRefXOF(mix))
 	body := func(step, i int) []byte {
 		m := steps[step][i]
 		if len(m) < keySize {
@@ -1372,13 +1434,129 @@ func deniable(c *ctx, S *suiteT, r *vh.Rng, mode string) {
 	c.rep.Index(id, replay)
 }
 
+// ---------------------------------------------------------------- object history: reuse
+
+// reuseCases: ONE Predicate, ONE Prover value, ONE Verifier value, ONE secrets map and ONE points
+// map are used for several proofs (different protocol names, hash and deniable contexts). Every
+// run must be complete, and the caller's maps and objects must be unchanged afterwards.
+func reuseCases(c *ctx, in *inst, r *vh.Rng) {
+	S := in.S
+	rep := c.rep
+	var su proof.Suite = S.s
+	if S.dlog {
+		su = S.withStream(vh.NewSeqStream(r.Bytes(16)))
+	}
+	pred := in.root.build()
+	secs := in.secrets()
+	pts := ptsOf(in.ptv)
+	var prv proof.Prover
+	var vrf proof.Verifier
+	if pan, _ := vh.Try(func() {
+		prv = pred.Prover(su, secs, pts, choiceMap(in.root, in.choice))
+		vrf = pred.Verifier(S.s, pts)
+	}); pan {
+		return
+	}
+	replay := map[string]interface{}{"suite": S.name, "pred": in.root.coq(), "shape": in.root.shapeKey(), "case": "reuse"}
+	// snapshot in a deterministic order
+	snap := func() string {
+		var sb strings.Builder
+		for id := 0; id < 400; id++ {
+			if x, ok := secs[sname(id)]; ok {
+				sb.WriteString(vh.Hex(marshalSc(x)))
+			}
+			if p, ok := pts[pname(id)]; ok {
+				sb.WriteString(vh.Hex(marshalPt(p)))
+			}
+		}
+		return sb.String()
+	}
+	before := snap()
+	checkSnap := func(after string) {
+		if snap() != before {
+			rep.Fail("proof.Prover/caller-secrets-or-points-modified", fmt.Sprintf("%s: the caller's secrets/points changed %s", S.name, after), replay)
+		}
+	}
+	fresh := func(name string, pf []byte) int { return verify(S, in.root, pts, name, pf) }
+	nrun := 2 + r.Intn(2)
+	for k := 0; k < nrun; k++ {
+		name := genName(r)
+		var pf []byte
+		var err error
+		pan, _ := vh.Try(func() { pf, err = proof.HashProve(su, name, prv) })
+		rep.Count(fmt.Sprint("reuse", S.name, in.root.coq(), k, name), true)
+		rep.Dist(fmt.Sprintf("reuse:prover-hash-run-%d", k+1))
+		rep.Dist("suite:" + S.name)
+		if pan || err != nil {
+			rep.Fail("proof.Prover/reused-prover-fails", fmt.Sprintf("%s: run %d of the same Prover value failed (%v)", S.name, k+1, err), replay)
+			return
+		}
+		checkSnap(fmt.Sprintf("after HashProve run %d", k+1))
+		var verr error
+		pan, _ = vh.Try(func() { verr = proof.HashVerify(S.s, name, vrf, pf) })
+		rep.Dist(fmt.Sprintf("reuse:verifier-run-%d", k+1))
+		vf := fresh(name, pf)
+		if pan || verr != nil {
+			if vf == 0 {
+				rep.Fail("proof.Verifier/reused-verifier-rejects", fmt.Sprintf("%s: use %d of the same Verifier value rejects a proof that a fresh Verifier accepts (%v)", S.name, k+1, verr), replay)
+			} else {
+				rep.Fail("proof.Prover/reused-prover-proof-rejected", fmt.Sprintf("%s: the proof of run %d of the same Prover value (true statement) is rejected: %v", S.name, k+1, verr), replay)
+			}
+			return
+		}
+		if vf != 0 {
+			rep.Fail("proof.Verifier/reused-verifier-accepts-what-fresh-rejects", fmt.Sprintf("%s: use %d", S.name, k+1), replay)
+			return
+		}
+		checkSnap(fmt.Sprintf("after HashVerify use %d", k+1))
+		// the reused verifier still rejects an altered proof
+		m := cp(pf)
+		m[len(m)-1] ^= 1
+		var merr error
+		pan, _ = vh.Try(func() { merr = proof.HashVerify(S.s, name, vrf, m) })
+		if !pan && merr == nil && !in.degenerate() {
+			rep.Fail("proof.Verifier/reused-verifier-accepts-altered", fmt.Sprintf("%s: use %d", S.name, k+1), replay)
+		}
+	}
+	// the same Prover and Verifier values in the deniable context, after the hash context
+	if r.Chance(50) {
+		g := S.s
+		other := genInst(S, r.Fork())
+		for len(other.root.reps()) > 6 {
+			other = genInst(S, r.Fork())
+		}
+		op := other.root.build()
+		oprv := op.Prover(g, other.secrets(), ptsOf(other.ptv), choiceMap(other.root, other.choice))
+		overf := op.Verifier(g, ptsOf(other.ptv))
+		protos := []proof.Protocol{
+			proof.DeniableProver(g, 0, prv, []proof.Verifier{nil, overf}),
+			proof.DeniableProver(g, 1, oprv, []proof.Verifier{vrf, nil}),
+		}
+		rands := []kyber.XOF{g.XOF(r.Bytes(16)), g.XOF(r.Bytes(16))}
+		nodes, _, hung := runClique(protos, rands, nil, 60*time.Second)
+		rep.Count(fmt.Sprint("reuse-deniable", S.name, in.root.coq()), true)
+		rep.Dist("reuse:prover-hash-then-deniable")
+		if hung {
+			rep.Fail("proof.DeniableProver/blocked", fmt.Sprintf("%s: reuse run never returned", S.name), replay)
+			return
+		}
+		for i, nd := range nodes {
+			if nd.panicd || len(nd.errs) != 2 || nd.errs[0] != nil || nd.errs[1] != nil {
+				rep.Fail("proof.Prover/reused-prover-proof-rejected", fmt.Sprintf("%s: deniable run with a Prover/Verifier already used for hash proofs: node %d reports %v", S.name, i, nd.errs), replay)
+				return
+			}
+		}
+		checkSnap("after the deniable run")
+	}
+}
+
 // ---------------------------------------------------------------- main
 
 func main() {
 	o := vh.ParseFlags()
 	rng := vh.NewRng(o.Seed)
 	rep := vh.NewReport("C14", o.Seed, o.Tier)
-	rep.Rule = "random predicate trees: top = Rep | And | Or (<= 4 branches, each Rep | And of <= 4 (nested And allowed) | nested Or), <= 3 terms per Rep over 1..5 shared secrets and 1..3 bases, obligated branch uniformly at every position, other branches all-true or each Rep true w.p. 1/2; per tree: honest proof, trailing bytes, field replacement by another valid value / bit flips / field swaps / truncations, changed public points, same-shape and different-shape predicates, other protocol names; single-variable and single-point falsifications; every satisfied branch chosen in turn; edge predicates (Or in And, missing/out-of-range choice, empty Or/And, zero base); forged transcripts; deniable prover over a 2..3-party clique (honest, false statement, altered key/commitment/response). distinct = distinct (tree, variant, proof bytes); all counted cases non-trivial"
+	rep.Rule = "random predicate trees: top = Rep | And | Or (<= 4 branches, each Rep | And of <= 4 (nested And allowed) | nested Or), <= 3 terms per Rep over 1..5 shared secrets and 1..3 bases, obligated branch uniformly at every position, other branches all-true or each Rep true w.p. 1/2; per tree: honest proof, trailing bytes, field replacement by another valid value / bit flips / field swaps / truncations, changed public points, same-shape and different-shape predicates; protocol names of length-boundary-biased lengths (0,1,5,31..33,63..65,73,127..129,200) and other names differing by an appended / dropped / last / first / random byte and by a byte beyond index 64 / 128; object history: one Predicate, Prover value, Verifier value, secrets map and points map reused for 2..3 hash proofs under different names and then a deniable run, caller's maps compared before/after; single-variable and single-point falsifications; every satisfied branch chosen in turn; edge predicates (Or in And, missing/out-of-range choice, empty Or/And, zero base); forged transcripts; deniable prover over a 2..3-party clique (honest, false statement, altered key/commitment/response). distinct = distinct (tree, variant, proof bytes); all counted cases non-trivial"
 	cf := &vh.CaseFile{Header: "From Kyber Require Import Algebra.Zq Sigma.SigmaSM Sigma.SigmaRun.", Type: "case", Runner: "mismatches"}
 	c := &ctx{rep: rep, cf: cf, coqOn: !o.Search}
 
@@ -1409,6 +1587,9 @@ func main() {
 			}
 			if i%3 == 0 {
 				allChoices(c, in, r)
+			}
+			if i%3 == 1 || !pl.S.dlog {
+				reuseCases(c, in, r)
 			}
 		}
 		r := rng.Fork()
